@@ -441,7 +441,7 @@ def next (s : Vidya α) (input : α) : Except Panic (α × Vidya α) :=
     let up := up + change * ind (decide (0 < change))
     let dn := dn - change * ind (decide (change < 0))
     let out :=
-      if up ≠ 0 ∨ dn ≠ 0 then
+      if up + dn ≠ 0 then
         let cmo := sabs ((up - dn) / (up + dn))
         let f_cmo := s.f * cmo
         input * f_cmo + (1 - f_cmo) * s.last_output
